@@ -502,6 +502,8 @@ def run_check(prop: Prop, tier: str, seed: int) -> int:
     violations = 0
     known_hits: dict[str, int] = {}
     findings = load_findings()
+    for old in (VERIF / "replays").glob(f"{pid}_*.json"):
+        old.unlink()
     proof_broken = None  # description
     corr_broken = None
 
@@ -543,7 +545,11 @@ def run_check(prop: Prop, tier: str, seed: int) -> int:
             if "harness_error" in o:
                 e = "false"
             else:
-                e = prop.agree(c, o)
+                try:
+                    e = prop.agree(c, o)
+                except Exception as ex:  # an observation the emitter cannot express = disagreement
+                    o["agree_error"] = f"{type(ex).__name__}: {ex}"
+                    e = "false"
             if e is None:
                 skipped += 1
                 continue
@@ -561,20 +567,31 @@ def run_check(prop: Prop, tier: str, seed: int) -> int:
         for i, (c, o) in enumerate(zip(cases, obs_list)):
             if "harness_error" in o:
                 continue
-            for f in prop.oracle(c, o):
+            try:
+                fs = prop.oracle(c, o)
+            except Exception as ex:
+                fs = [{"kind": "oracle-exception", "what": f"oracle could not read the observation: {type(ex).__name__}: {ex}", "attrs": {}}]
+            for f in fs:
                 oracle_fail.append((i, f))
 
         # distribution ----------------------------------------------------------------
         hist: dict[str, int] = {}
         seen, nontriv = set(), 0
         for c, o in zip(cases, obs_list):
-            for t in prop.tags(c, o):
+            try:
+                tg = prop.tags(c, o) if "harness_error" not in o else ["harness_error"]
+            except Exception:
+                tg = ["untaggable"]
+            for t in tg:
                 hist[t] = hist.get(t, 0) + 1
             h = canon_hash(c)
             if h not in seen:
                 seen.add(h)
-                if "harness_error" not in o and prop.nontrivial(c, o):
-                    nontriv += 1
+                try:
+                    if "harness_error" not in o and prop.nontrivial(c, o):
+                        nontriv += 1
+                except Exception:
+                    pass
 
         # 5. failure protocol ----------------------------------------------------------
         search_done = 0
@@ -588,7 +605,10 @@ def run_check(prop: Prop, tier: str, seed: int) -> int:
                 except Exception:
                     continue
                 search_done += 1
-                fs = prop.oracle(c, o)
+                try:
+                    fs = prop.oracle(c, o)
+                except Exception:
+                    fs = []
                 if fs:
                     cases.append(c)
                     obs_list.append(o)
